@@ -484,12 +484,16 @@ impl<'a> Ord for BorrowedTerm<'a> {
                 }
                 (BorrowedTerm::Map(a), BorrowedTerm::Map(b)) => {
                     a.len().cmp(&b.len()).then_with(|| {
-                        for ((k1, v1), (k2, v2)) in a.iter().zip(b.iter()) {
-                            match k1.cmp(k2) {
-                                Ordering::Equal => match v1.cmp(v2) {
-                                    Ordering::Equal => continue,
-                                    other => return other,
-                                },
+                        // maps of equal size: all keys in key order first, the values only then
+                        for (k1, k2) in a.keys().zip(b.keys()) {
+                            match compare_map_keys(k1, k2) {
+                                Ordering::Equal => continue,
+                                other => return other,
+                            }
+                        }
+                        for (v1, v2) in a.values().zip(b.values()) {
+                            match v1.cmp(v2) {
+                                Ordering::Equal => continue,
                                 other => return other,
                             }
                         }
@@ -784,6 +788,21 @@ fn bit_parts<'t>(t: &'t BorrowedTerm<'_>) -> Option<(&'t [u8], u8)> {
         BorrowedTerm::BitBinary { bytes, bits } => Some((bytes.as_ref(), *bits)),
         _ => None,
     }
+}
+
+/// Map keys are matched exactly: an integer and a float of the same value are different
+/// keys, and the integer sorts first.
+fn compare_map_keys(a: &BorrowedTerm<'_>, b: &BorrowedTerm<'_>) -> Ordering {
+    a.cmp(b).then_with(|| {
+        match (
+            matches!(a, BorrowedTerm::Float(_)),
+            matches!(b, BorrowedTerm::Float(_)),
+        ) {
+            (false, true) => Ordering::Less,
+            (true, false) => Ordering::Greater,
+            _ => Ordering::Equal,
+        }
+    })
 }
 
 fn compare_owned_term_lists(a: &[OwnedTerm], b: &[OwnedTerm]) -> Ordering {
